@@ -78,7 +78,7 @@ def rand_policy(rng, ssrc=None, ssrc_type=SSRC_SPECIFIC, valid=True, mki=None, s
         bits = rng.choice([128, 128, 256])
         rtp = gcm_cp(bits, rng.choice([16, 16, 8]), rtp[5])
         # unencrypted SRTCP (RFC 7714 9.3: whole packet as AAD, bare tag) gets as much weight as encrypted SRTCP
-        rtcp = gcm_cp(bits, rng.choice([16, 16, 8]), rng.choice([3, 3, 2, 2, 0, 1]))
+        rtcp = gcm_cp(bits if rng.random() < 0.75 else (384 - bits), rng.choice([16, 16, 8]), rng.choice([3, 3, 2, 2, 0, 1]))   # sometimes GCM-128 next to GCM-256
     if safe_tags:
         # tag lengths above SRTP_MAX_TAG_LEN and key lengths above 256 are exercised by C10 only
         rtp = rtp[:4] + (min(rtp[4], 16),) + rtp[5:]
@@ -86,7 +86,7 @@ def rand_policy(rng, ssrc=None, ssrc_type=SSRC_SPECIFIC, valid=True, mki=None, s
     klen = max(rtp[1], rtcp[1], 30 if NULL_CIPHER in (rtp[0], rtcp[0]) else 0,
                46 if ICM256 in (rtp[0], rtcp[0]) else 0)
     if AEAD:
-        klen = rtp[1]
+        klen = max(rtp[1], rtcp[1])
     use_mki = rng.random() < 0.3 if mki is None else mki
     if use_mki:
         msz = rng.choice([1, 2, 4, 4, 8, 16, 128])
@@ -127,7 +127,7 @@ def strat_policy(rng, k, **kw):
     aead = p.rtp[0] in (GCM128, GCM256)
     ext_p = 0.5
     if klass == 1:
-        p.rtp = p.rtp[:5] + (0,); p.rtcp = p.rtcp[:5] + (rng.choice([0, 2]),)       # no service at all: pure copies
+        p.rtp = p.rtp[:5] + (0,); p.rtcp = p.rtcp[:5] + ((0, 2)[(k // 10) % 2],)     # no service at all: pure copies (SRTCP: none / auth only, alternating)
     elif klass == 2:
         p.rtp = p.rtp[:5] + (2,); p.rtcp = p.rtcp[:5] + (2,)                         # authentication only
     elif klass == 3 and not aead:
